@@ -247,10 +247,22 @@ def playback(group, paths, harness, scratch_tag="pb"):
     # Kani prints one test per failed check AND one per satisfied cover: take a failed-check test
     blocks = re.findall(r"(/// Test generated for harness.*?\n#\[test\]\nfn kani_concrete_playback_\w+\(\) \{.*?\n\}\n)", out, re.S)
     blocks = [b for b in blocks if not re.search(r"Check for `cover`", b)] or []
+    fallback = False
     if not blocks:
-        return {"reproduced": None, "why": "no concrete playback test was generated", "tail": out[-1500:]}
-    test_src = blocks[0]
-    tname = re.search(r"fn (kani_concrete_playback_\w+)", test_src).group(1)
+        # Kani sometimes reports a failing harness but "did not generate unit tests" (seen with Vec-heavy
+        # harnesses).  Fallback: look for a failing input natively by rejection sampling through the same
+        # concrete-playback API (confirmation only; the solver verdict already exists).
+        fallback = True
+        tmpl = open(os.path.join(VERIF, "harness", "replay", "witness_search.rs.tmpl")).read()
+        tag = re.sub(r"\W+", "_", harness.split("::")[-1])[-40:]
+        test_src = (tmpl.replace("@TAG@", tag).replace("@HARNESS@", harness.split("::")[-1])
+                    .replace("@SEED@", str(int(os.environ.get("VERIF_SEED", "0") or 0)))
+                    .replace("@TRIALS@", os.environ.get("VERIF_WITNESS_TRIALS", "300000")))
+        tname = "kani_witness_search_" + tag
+        kani_msg = out[-600:]
+    else:
+        test_src = blocks[0]
+        tname = re.search(r"fn (kani_concrete_playback_\w+)", test_src).group(1)
     # insert the test next to the harness (scratch copy only)
     short = harness.split("::")[-1]
     src_dir = paths["harness_core"] if group["crate"] == "core" else os.path.join(paths["packet"], "src")
@@ -273,7 +285,10 @@ def playback(group, paths, harness, scratch_tag="pb"):
     if target_file is None:
         return {"reproduced": None, "why": "could not locate harness source for " + harness, "test": test_src}
     with open(target_file, "a") as f:
-        f.write("\n#[cfg(kani)]\nmod kani_playback_%s {\n    use super::*;\n%s\n}\n" % (tname[-12:], test_src))
+        if fallback:
+            f.write(test_src)
+        else:
+            f.write("\n#[cfg(kani)]\nmod kani_playback_%s {\n    use super::*;\n%s\n}\n" % (tname[-12:], test_src))
     # the native test build pulls trippy-core's dev-dependencies (tracing-subscriber, ...) which need the
     # REAL tracing crate: drop the shim patch for the playback build, restore it afterwards
     cfg_path = os.path.join(paths["repo"], ".cargo", "config.toml")
@@ -295,13 +310,16 @@ def playback(group, paths, harness, scratch_tag="pb"):
         c2 = ["cargo", "kani", "playback", "-Z", "concrete-playback"]
         if group["crate"] == "core":
             c2 += ["-p", "trippy-core"]
-        c2 += ["--", tname]
-        q = subprocess.run(c2, cwd=cwd, env=e2, capture_output=True, text=True, timeout=1800)
+        c2 += ["--", tname] + (["--nocapture"] if fallback else [])
+        q = subprocess.run(c2, cwd=cwd, env=e2, capture_output=True, text=True, timeout=2400)
         o = q.stdout + q.stderr
         ran = re.search(r"test result: (\w+)\. (\d+) passed; (\d+) failed", o)
         panicked = re.findall(r"panicked at ([^\n]+)\n([^\n]*)", o)
+        wit = re.search(r"WITNESS-FOUND[^\n]*\nWITNESS-VALUES ([^\n]*)", o)
         results[prof] = {"rc": q.returncode, "ran": bool(ran) and (int(ran.group(2)) + int(ran.group(3)) > 0),
-                         "failed": bool(ran) and int(ran.group(3)) > 0,
+                         "failed": bool(ran) and int(ran.group(3)) > 0 and (not fallback or bool(wit)),
+                         "witness_values": wit.group(1)[:2000] if wit else None,
+                         "witness_search": (re.search(r"WITNESS-(NOT-)?FOUND[^\n]*", o) or [None])[0] if fallback else None,
                          "panic": ["%s %s" % (a, b) for a, b in panicked][:3],
                          "tail": o[-800:] if not ran else ""}
     if cfg_saved is not None:
@@ -309,7 +327,8 @@ def playback(group, paths, harness, scratch_tag="pb"):
         open(lock_path, "w").write(lock_saved)
     rep = any(r["failed"] for r in results.values())
     ran_any = any(r["ran"] for r in results.values())
-    return {"reproduced": rep if ran_any else None, "profiles": results, "test": test_src, "test_name": tname,
+    return {"reproduced": rep if ran_any else None, "profiles": results, "test": test_src if not fallback else "(witness search)",
+            "test_name": tname, "method": "native witness search (Kani emitted no playback test)" if fallback else "kani concrete playback",
             "why": "" if ran_any else "playback test did not run"}
 
 
